@@ -29,6 +29,9 @@ type cfg08 struct {
 	// script at the same time as the first: the subscribers are all-targets
 	// subscribers, so two goroutines insert into each queue at once
 	feeds2 []wop
+	// pollsStalled: subscriber A (POLL mode) keeps sending this many poll
+	// triggers while its sends are stalled
+	pollsStalled int
 }
 
 func configs08(tier string) []xplore.Config {
@@ -73,6 +76,10 @@ func configs08(tier string) []xplore.Config {
 	for _, st := range []string{"never", "permanent"} {
 		out = append(out, xplore.Config{Name: fmt.Sprintf("A(*) stall=%s | B(*) normal | W(t1)=upd a/b;upd a/c || W(t2)=upd a/b;upd a/c (two feeds)", st), Bound: bound, Data: cfg08{stall: st, script: []wop{{"upd", "a/b"}, {"upd", "a/c"}}, feeds2: []wop{{"upd", "a/b"}, {"upd", "a/c"}}}})
 	}
+	// a POLL subscriber that stops reading but keeps polling: every poll walks
+	// the cache again, and whatever that adds to the backlog coalesces with
+	// what is already pending - the markers included
+	out = append(out, xplore.Config{Name: "A mode=POLL stall=permanent polling 3x while stalled | B normal | W=upd a/b;upd a/b;upd a/b", Bound: bound, Data: cfg08{stall: "permanent", script: scripts[1], amode: pb.SubscriptionList_POLL, pollsStalled: 3}})
 	// the send time-out ends a stalled subscription in every mode
 	for _, md := range []pb.SubscriptionList_Mode{pb.SubscriptionList_ONCE, pb.SubscriptionList_POLL} {
 		out = append(out, xplore.Config{Name: fmt.Sprintf("A mode=%v stall=permanent | B normal | W=upd a/b;upd a/b;upd a/b", md), Bound: bound, Data: cfg08{stall: "permanent", script: scripts[1], amode: md}})
@@ -258,6 +265,10 @@ func run08(cfg xplore.Config, ch vrt.Chooser, trace bool) (xplore.Outcome, *vrt.
 			viol(&out, "setup", "B did not reach the streaming state: returned=%v status=%v log=%s", b.returned, b.status, renderLog(b.log))
 			return
 		}
+		for i := 0; i < d.pollsStalled; i++ {
+			vrt.Send(a.pollC, struct{}{})
+			vrt.Idle()
+		}
 		wdone := false
 		vrt.GoNamed("writer", func() {
 			for _, o := range d.script {
@@ -373,6 +384,17 @@ func run08(cfg xplore.Config, ch vrt.Chooser, trace bool) (xplore.Outcome, *vrt.
 			max := len(leaves) + dels + 1 + 1
 			if got := len(a.log) - before; got > max {
 				viol(&out, "backlog-unbounded", "the stalled subscriber's backlog held %d entries; bound is %d (one per distinct pending leaf + one per delete + sync + in-flight); log: %s", got, max, renderLog(a.log))
+			}
+			if d.pollsStalled > 0 {
+				syncs := 0
+				for _, r := range a.log[before:] {
+					if r.GetSyncResponse() {
+						syncs++
+					}
+				}
+				if syncs > 2 {
+					viol(&out, "backlog-unbounded", "the stalled POLL subscriber polled %d times; its drained backlog holds %d sync markers (they coalesce: at most the one in flight and one pending); log: %s", d.pollsStalled, syncs, renderLog(a.log[before:]))
+				}
 			}
 			// the same bound, exactly: the first response logged after the release
 			// is the one that was in flight; behind it the backlog holds ONE entry
